@@ -108,7 +108,11 @@ impl Geo {
 pub const G9: Geo = Geo { name: "G9", cluster_bits: 9, order: 6, version: 3, bs_bits: 9, l2_slice_bits: 9, rb_slice_bits: 9, tables: 3, extra_clusters: 0 };
 pub const G10: Geo = Geo { name: "G10", cluster_bits: 10, order: 4, version: 3, bs_bits: 9, l2_slice_bits: 9, rb_slice_bits: 9, tables: 3, extra_clusters: 0 };
 pub const G12: Geo = Geo { name: "G12", cluster_bits: 12, order: 2, version: 3, bs_bits: 9, l2_slice_bits: 9, rb_slice_bits: 9, tables: 1, extra_clusters: 16 };
-pub const G12B: Geo = Geo { name: "G12b4k", cluster_bits: 12, order: 0, version: 3, bs_bits: 12, l2_slice_bits: 12, rb_slice_bits: 12, tables: 1, extra_clusters: 16 };
+pub const G12B: Geo = Geo { name: "G12b4k", cluster_bits: 12, order: 2, version: 3, bs_bits: 12, l2_slice_bits: 12, rb_slice_bits: 12, tables: 1, extra_clusters: 16 };
+pub const G12R0: Geo = Geo { name: "G12r0", cluster_bits: 12, order: 0, version: 3, bs_bits: 9, l2_slice_bits: 9, rb_slice_bits: 9, tables: 1, extra_clusters: 16 };
+pub const G12R1: Geo = Geo { name: "G12r1", cluster_bits: 12, order: 1, version: 3, bs_bits: 10, l2_slice_bits: 10, rb_slice_bits: 10, tables: 1, extra_clusters: 16 };
+pub const G12R3: Geo = Geo { name: "G12r3", cluster_bits: 12, order: 3, version: 3, bs_bits: 11, l2_slice_bits: 11, rb_slice_bits: 11, tables: 1, extra_clusters: 16 };
+pub const G12V2: Geo = Geo { name: "G12v2", cluster_bits: 12, order: 4, version: 2, bs_bits: 9, l2_slice_bits: 12, rb_slice_bits: 12, tables: 1, extra_clusters: 16 };
 pub const G16: Geo = Geo { name: "G16", cluster_bits: 16, order: 4, version: 3, bs_bits: 9, l2_slice_bits: 12, rb_slice_bits: 12, tables: 0, extra_clusters: 1024 };
 
 /// The operation alphabet of DESIGN §2.3, generated from the geometry's boundaries.
